@@ -38,8 +38,8 @@ PROPS = {
         'e3_always': ['choose_path'],
         'e3': ['choose_path'],
         'units': ['clvmleaves'],
-        'decided': 'the leaves the stepping evaluator re-implements itself: path lookup (choose_path) equals consensus traverse_path incl. path 0; program atoms are read as unsigned paths (path_from_u8, flatten_signed_int, lemma path_of_canonical_atom); truthiness (truthy) equals the consensus nil test in the current integer mode; atom_value; generate_argument_refs produces the paths 3*2^(k+j)-1 which select the j-th argument (lemma arg_ref_selects)',
-        'not_covered': ['run_step / run as a whole (bisimulation with run_program)', 'apply_op delegation', 'translate_head + prim_map', 'eval_args', 'combine', 'that apply_op passes start = 5 and the environment (nil . args)', 'that run_step calls the verified leaves (call sites are unverified)'],
+        'decided': 'the leaves the stepping evaluator re-implements itself: path lookup (choose_path) equals consensus traverse_path incl. path 0; program atoms are read as unsigned paths (path_from_u8, flatten_signed_int, lemma path_of_canonical_atom); truthiness (truthy) equals the consensus nil test in the current integer mode; atom_value; generate_argument_refs produces the paths 3*2^(k+j)-1 which select the j-th argument (lemma arg_ref_selects); translate_head: a number in operator position is handed on as the opcode it is, a name as what the operator table maps it to (finding F24)',
+        'not_covered': ['run_step / run as a whole (bisimulation with run_program)', 'apply_op delegation', 'the operator table itself (prim_map contents, see C20)', 'eval_args', 'combine', 'that apply_op passes start = 5 and the environment (nil . args)', 'that run_step calls the verified leaves (call sites are unverified)'],
     },
     'C07': {
         'e3_always': ['convert'],
